@@ -768,4 +768,82 @@ theorem scaleFloor_exact (s bits : Nat) (hnan : f64IsNaN bits = false) (hsign : 
         rw [← Nat.pow_add, ← hs]
       rw [this, Nat.mul_div_mul_left _ _ (Nat.two_pow_pos _)]
 
+/-! ### observation capture: `add_value` over a list of observations -/
+
+theorem recordAll_append (p : Params) (bs : List Nat) (a b : List (Nat × Nat)) :
+    recordAll p bs (a ++ b) = recordAll p (recordAll p bs a) b := by
+  induction a generalizing bs with
+  | nil => rfl
+  | cons r a ih => obtain ⟨v, n⟩ := r; simp only [List.cons_append, recordAll, ih]
+
+/-- the capturer's loop is the fold of the single-observation step: it records exactly the captured
+observations, in order; empty repeats are no-ops -/
+theorem addValue_eq (ops : CaptureOps) (p : Params) (bs : List Nat) (obs : List Obs) :
+    addValue ops p bs obs = recordAll p bs (captureAll ops obs) := by
+  induction obs generalizing bs with
+  | nil => rfl
+  | cons o obs ih =>
+    simp only [addValue, captureAll, List.filterMap_cons]
+    cases h : captureStep ops o with
+    | none => simpa [captureAll] using ih bs
+    | some r => obtain ⟨v, n⟩ := r; simpa [captureAll, recordAll] using ih (recordMany p bs v n)
+
+theorem addValues_eq (ops : CaptureOps) (p : Params) (bs : List Nat) (calls : List (List Obs)) :
+    addValues ops p bs calls = recordAll p bs (calls.flatMap (captureAll ops)) := by
+  induction calls generalizing bs with
+  | nil => rfl
+  | cons c calls ih => simp only [addValues, List.flatMap_cons, recordAll_append, ih, addValue_eq]
+
+theorem countSum_append (a b : List (Nat × Nat)) : countSum (a ++ b) = countSum a + countSum b := by
+  simp [countSum]
+
+theorem countSum_captureAll (ops : CaptureOps) (obs : List Obs) :
+    countSum (captureAll ops obs) = (obs.map Obs.count).sum := by
+  induction obs with
+  | nil => rfl
+  | cons o obs ih =>
+    simp only [captureAll, List.filterMap_cons, List.map_cons, List.sum_cons]
+    cases o with
+    | unsigned v => simp only [captureStep, countSum, List.map_cons, List.sum_cons, Obs.count]; simpa [countSum, captureAll] using ih
+    | floating b => simp only [captureStep, countSum, List.map_cons, List.sum_cons, Obs.count]; simpa [countSum, captureAll] using ih
+    | repeated t n =>
+      by_cases hn : n > 0
+      · simp only [captureStep, hn, if_true, countSum, List.map_cons, List.sum_cons, Obs.count]
+        simpa [countSum, captureAll] using ih
+      · have : n = 0 := by omega
+        subst this
+        simp only [captureStep, Nat.lt_irrefl, if_false, Obs.count, Nat.zero_add]
+        simpa [captureAll] using ih
+
+theorem countSum_flatMap_captureAll (ops : CaptureOps) (calls : List (List Obs)) :
+    countSum (calls.flatMap (captureAll ops)) = (calls.flatten.map Obs.count).sum := by
+  induction calls with
+  | nil => rfl
+  | cons c calls ih =>
+    simp only [List.flatMap_cons, countSum_append, ih, countSum_captureAll, List.flatten_cons, List.map_append,
+      List.sum_append]
+
+theorem samRecordAll_append (vals : List Nat) (a b : List (Nat × Nat)) :
+    samRecordAll vals (a ++ b) = samRecordAll (samRecordAll vals a) b := by
+  induction a generalizing vals with
+  | nil => rfl
+  | cons r a ih => obtain ⟨v, n⟩ := r; simp only [List.cons_append, samRecordAll, ih]
+
+theorem samAddValue_eq (ops : CaptureOps) (vals : List Nat) (obs : List Obs) :
+    samAddValue ops vals obs = samRecordAll vals (captureAll ops obs) := by
+  induction obs generalizing vals with
+  | nil => rfl
+  | cons o obs ih =>
+    simp only [samAddValue, captureAll, List.filterMap_cons]
+    cases h : captureStep ops o with
+    | none => simpa [captureAll] using ih vals
+    | some r => obtain ⟨v, n⟩ := r; simpa [captureAll, samRecordAll] using ih (samRecordMany vals v n)
+
+theorem samAddValues_eq (ops : CaptureOps) (vals : List Nat) (calls : List (List Obs)) :
+    samAddValues ops vals calls = samRecordAll vals (calls.flatMap (captureAll ops)) := by
+  induction calls generalizing vals with
+  | nil => rfl
+  | cons c calls ih => simp only [samAddValues, List.flatMap_cons, samRecordAll_append, ih, samAddValue_eq]
+
+
 end Histogram
